@@ -107,6 +107,15 @@ class DevConn:
         else:
             self.dev.loop.call_soon(_do)
 
+    def hang_up(self, mode: str, delay: float = 0.0) -> None:
+        """Close behind everything already sent on this connection (TCP order): mode "fin" / "rst" as separate events,
+        "fin_same" / "rst_same" reported to the client's loop in the same pass as the last data."""
+        if self.closed:
+            return
+        self.closed = True
+        exc = ConnectionResetError(104, "Connection reset by peer") if mode.startswith("rst") else None
+        self.tr.close_later(delay + (0.0 if mode.endswith("_same") else 1e-4), exc, same_pass=mode.endswith("_same"))
+
 
 class SimDevice:
     def __init__(self, loop, *, version: int = 2, device_id: int = 0x1234, ac: Optional[ModelAC] = None,
@@ -134,6 +143,9 @@ class SimDevice:
         self.reply_device_id: Optional[int] = None
         self.silent_on_bad_token = False
         self.on_data: Optional[Callable] = None      # hook(dev, conn, frame) -> action or None
+        self.key_lifetime: Optional[float] = None    # seconds after which the device forgets a session key (None: never)
+        self.expired_key_packets = 0
+        self.hangup: Optional[str] = None            # personality: hang up ("fin", "rst", "fin_same", "rst_same") right after every answer
 
     # -- network side
     def connect_policy(self) -> str:
@@ -234,6 +246,11 @@ class SimDevice:
             self.transmissions.append((now, conn.id, v2.frame, v2.device_id))
             if stale:
                 return       # a device that moved to a new key cannot read this
+            if self.key_lifetime is not None and conn.last_handshake_at is not None and now - conn.last_handshake_at > self.key_lifetime:
+                # the device dropped the session key when its lifetime ended: it answers with an error packet
+                self.expired_key_packets += 1
+                conn.send_stream(rc.v3_error_packet(), delay=self.latency)
+                return
             self._data(conn, v2.frame)
             return
         self.log.append(WireEvent(now, conn.id, "undecodable", ok=False, note=f"type {hdr_type}", raw=pkt))
@@ -358,3 +375,6 @@ class SimDevice:
         else:
             stream = b"".join(wire)
             conn.send_stream(stream, delay=delay, cuts=opts.get("cuts"), gap=opts.get("gap", 0.0))
+        then = opts.get("then", self.hangup)
+        if then:
+            conn.hang_up(then, opts.get("then_delay", 0.0))
